@@ -27,7 +27,8 @@ What the code does, including its quirks:
   unstake still sees the old staking total;
 * `threshold` divides by `power / 100` (panic for 0 < power < 100);
 * `VoteList.Less` breaks ties by `Candidate[7:]` read as a big-endian integer when the *left* candidate
-  is 39 bytes long, else by the whole candidate as an integer (leading zero bytes do not count);
+  is 39 bytes long, else by the whole candidate as an integer (leading zero bytes do not count), and —
+  since repair 1c75543b — by `bytes.Compare` of the whole candidates when those integers are equal;
 * the voting-power rank ignores a `sub` for an account that is not yet a voter in memory, ignores an
   `add` of 0, keeps zero deltas in `changes`, removes a voter whose power becomes 0, and keeps each
   bucket ordered by *descending* account id;
@@ -42,7 +43,10 @@ hashes). Records are kept structured; the byte-level codecs are separate functio
 their round-trip laws in `Props.C15`. A `voteBP` whose concatenated candidate bytes are not a multiple of
 39 is *not* modelled (`Res.misaligned`): the real code then frames the record wrongly
 (DESIGN §5 lead 4b, finding C15-votebp-candidate-not-39-bytes).
-Not modelled: `topVoters.members` (red-black tree) and `vpr.lowest`; the two hard-coded account-id
+`topVoters.members` (a red-black tree ordered by descending power, then descending id) is not a state
+component of the model: it is specified as `membersOf` = the voters sorted by that order (after repair
+36df0321 the real tree is that; before it a stale node stayed behind). Not modelled: `vpr.lowest` (written,
+never read by the node); the two hard-coded account-id
 exceptions of addVpr/subVpr; proposals other than the four built-in ones; contract creators in UpdateName.
 Core Lean only (linked into `model-c15`).
 -/
@@ -195,13 +199,17 @@ def deserNameMap (d : Bytes) : Option (Bytes × Bytes) :=
 /-- One entry of a vote list: candidate bytes and amount. -/
 abbrev Entry := Bytes × Nat
 
-/-- `VoteList.Less(i, j)` with `a = Votes[i]`, `b = Votes[j]`. `List.drop` stands for `Candidate[7:]`,
+/-- `VoteList.Less(i, j)` with `a = Votes[i]`, `b = Votes[j]` (after repair 1c75543b: when the integer
+keys tie, `bytes.Compare` of the whole candidates decides). `List.drop` stands for `Candidate[7:]`,
 which panics in Go when the *right* candidate is shorter than 7 bytes: see `lessPanics`. -/
 def less (a b : Entry) : Bool :=
   if a.2 < b.2 then true
   else if a.2 = b.2 then
-    if a.1.length = 39 then decide (beNat (a.1.drop 7) > beNat (b.1.drop 7))
-    else decide (beNat a.1 > beNat b.1)
+    let ka := if a.1.length = 39 then beNat (a.1.drop 7) else beNat a.1
+    let kb := if a.1.length = 39 then beNat (b.1.drop 7) else beNat b.1
+    if ka > kb then true
+    else if ka = kb then !bytesLe a.1 b.1
+    else false
   else false
 
 /-- The inputs on which `Less` panics (slice bounds): equal amounts, left candidate of 39 bytes, right
@@ -321,7 +329,7 @@ def St.balOf (s : St) (a : Bytes) : Nat :=
 
 inductive Res
   | ok | insufficient | lessTime | tooSmall | mustStakeVote | mustStakeUnstake | exceed
-  | notSupported | daoBadId | daoTooMany | daoBadNumber | daoBadRange
+  | notSupported | daoBadId | daoTooFew | daoTooMany | daoBadNumber | daoBadRange
   | occupied | ownerMismatch | notCreated | ownerSet
   | panic | misaligned
 deriving DecidableEq, Repr
@@ -413,6 +421,17 @@ def loadBucket (disk : AMap Nat (List VP)) (v : Vpr) (i : Nat) : Vpr :=
   (getBucket disk i).foldl (fun v e => loadEntry v i e) v
 
 def loadVpr (disk : AMap Nat (List VP)) : Vpr := (List.range 71).foldl (loadBucket disk) Vpr.empty
+
+/-- What `topVoters.members` holds: the voters by descending power, then descending account id
+(comparator of newTopVoters). -/
+def memberBefore (a b : VP) : Bool :=
+  if a.power > b.power then true else if a.power = b.power then !bytesLe a.id b.id else false
+
+def memberInsert (x : VP) : List VP → List VP
+  | [] => [x]
+  | y :: r => if memberBefore x y then x :: y :: r else y :: memberInsert x r
+
+def membersOf (v : Vpr) : List VP := (v.powers.map (·.2)).foldr memberInsert []
 
 /-! ### Tallies (voteresult.go) -/
 
@@ -591,28 +610,25 @@ def validById (i : Issue) (n : Nat) : Bool :=
   | _ => decide (n ≤ maxAER)
 
 /-- v1voteDAO: `args` are the JSON string arguments after the id (MultipleChoice = 1, no candidate
-list, no block range for the four built-in proposals). No argument at all: `Args[1]` panics in newVoteCmd
-after validation passed. -/
+list, no block range for the four built-in proposals). No argument at all is refused since repair 9f771520
+(before it: `Args[1]` panicked in newVoteCmd after validation had passed). -/
 def voteDAO (s : St) (a : Bytes) (h : Nat) (id : String) (args : List Bytes) : Res × St :=
   if s.fv < 2 then (.notSupported, s) else
   match issueOfId id with
   | none => (.daoBadId, s)
   | some i =>
+    if args.length < 1 then (.daoTooFew, s) else
     if args.length > 1 then (.daoTooMany, s) else
     if args.any (fun c => (parseDec c).isNone) then (.daoBadNumber, s) else
     if args.any (fun c => match parseDec c with | some n => !validById i n | none => true) then (.daoBadRange, s) else
-    -- validateForVote comes before the Args[1] panic of newVoteCmd
-    match s.stakes.get a with
-    | none => (.mustStakeVote, s)
-    | some st =>
-      if st.amount = 0 then (.mustStakeVote, s) else
-      if (s.voteOf i a).isSome ∧ st.when + votingDelay > h then (.lessTime, s) else
-      if args.isEmpty then (.panic, s) else
-      castVote s i a h args
+    castVote s i a h args
 
 /-! ### Plain transfers -/
 
+/-- A TRANSFER transaction without fee: ValidateWithSenderState refuses an amount above the balance (also
+from an account to itself), then contract.Execute does SendBalance. -/
 def transfer (s : St) (src dst : Bytes) (amt : Nat) : Res × St :=
+  if s.balOf src < amt then (.insufficient, s) else
   match sendBalance s.bal src dst amt with
   | none => (.insufficient, s)
   | some bal => (.ok, { s with bal := bal })
